@@ -52,6 +52,7 @@ CONSTANTS
   MaxSeqLen,     \* "seqs": longest sequence
   NatElems,      \* "seqs": the nat values used as elements, e.g. 0..MaxPartSize+1
   LenChoices,    \* "catalogue": part lengths, e.g. {0, 1, 3, MaxPartSize, MaxPartSize + 1}
+  OverLens,      \* "catalogue": part lengths of the layouts with PartsCap + 1 parts (LenChoices or a subset)
   FillV          \* "catalogue": the nat value of every data element
 
 VARIABLE x       \* "seqs": a sequence of elements; "layouts": a sequence of parts; "catalogue": a row
@@ -174,7 +175,7 @@ LayoutViewAgrees ==
 (* ---- "catalogue": rows at the real caps ---------------------------------- *)
 (* a row: a layout (lens), packed (when the builder accepts it; otherwise packed as the builder would have without *)
 (* its limits), then one mutation                                                                                 *)
-Layouts == UNION { [1..k -> LenChoices] : k \in 1..(PartsCap + 1) }
+Layouts == UNION { [1..k -> LenChoices] : k \in 1..PartsCap } \cup [1..(PartsCap + 1) -> OverLens]
 Packed(lens) == LET st == Starts(lens, 0) IN
   [len |-> Sum(lens) + Len(lens), sp |-> [i \in 1..Len(lens) |-> [p |-> st[i], e |-> Nat_(lens[i])]], fill |-> Nat_(FillV)]
 
@@ -231,12 +232,14 @@ EmitRow ==
 (* ---- state machine ------------------------------------------------------- *)
 DataElems == {Nat_(0), El("p63")}          \* "layouts": data elements are never looked at by either function
 PartsSmall == UNION { [1..n -> DataElems] : n \in 0..(MaxPartSize + 1) }
+PartsOver  == UNION { [1..n -> {Nat_(0)}] : n \in 0..(MaxPartSize + 1) }   \* the part that exceeds PartsCap: its length only
 
 Init == CASE Mode = "seqs"      -> x = << >>
           [] Mode = "layouts"   -> x = << >>
           [] Mode = "catalogue" -> x \in { [lens |-> l, mut |-> NoMut] : l \in Layouts }
 Next == CASE Mode = "seqs"      -> Len(x) < MaxSeqLen /\ \E e \in Elems : x' = Append(x, e)
-          [] Mode = "layouts"   -> Len(x) < PartsCap + 1 /\ \E p \in PartsSmall : x' = Append(x, p)
+          [] Mode = "layouts"   -> \/ Len(x) < PartsCap /\ \E p \in PartsSmall : x' = Append(x, p)
+                                   \/ Len(x) = PartsCap /\ \E p \in PartsOver : x' = Append(x, p)
           [] Mode = "catalogue" -> x.mut = NoMut /\ \E m \in Mutations(x.lens) \ {NoMut} : x' = [x EXCEPT !.mut = m]
 Spec == Init /\ [][Next]_x
 
